@@ -1,5 +1,109 @@
-import D2V.Model.Watch
-/-! C44 — placeholder, theorems follow -/
+import D2V.Proofs.Watch44
+/-!
+  C44 — Watch mode always delivers the latest result to every client.
+
+  Everything is about every run of `D2V.Watch.step` from `init`: any number of file changes, requests, compiles,
+  clients connecting / leaving, in any interleaving.
+    safety:   `no_lost_request`, `client_monotone`, `res_monotone`, `wakeup_or_fresh`
+    the property at rest: `C44_quiescent_delivered`
+    liveness: `mu_decreases` / `internal_terminates` — the program's own steps strictly decrease `mu`, so once the
+              environment stops (no more edits, connections, drops) a quiescent state is reached after at most `mu s`
+              steps (under any scheduler that keeps taking enabled steps).
+-/
 namespace D2V.Watch
-theorem C44_init_quiescent_false : quiescent init = false := by decide
+
+theorem invs_of_run (steps : List Step) (s : State) (hr : run init steps = some s) :
+    InvVer s ∧ covered s ∧ InvFresh s :=
+  ⟨InvVer_run init s steps InvVer_init hr, covered_run init s steps InvVer_init covered_init hr,
+    InvFresh_run init s steps InvVer_init InvFresh_init hr⟩
+
+/-- `no_lost_request`: in every reachable state the latest content is covered — a notification or request is pending,
+    the compile loop is about to read the file, or it holds / has published a result made from the latest version -/
+theorem no_lost_request (steps : List Step) (s : State) (hr : run init steps = some s) : covered s :=
+  (invs_of_run steps s hr).2.1
+
+/-- `client_monotone`: what a client is sent never goes back to an older version -/
+theorem client_monotone (steps : List Step) (s : State) (hr : run init steps = some s) :
+    ∀ (i : Nat) (c : Client), s.clients[i]? = some c → c.sent.Pairwise (· ≤ ·) :=
+  fun i c hc => ((invs_of_run steps s hr).1.clients i c hc).sorted
+
+/-- results are published in compile order: `res` only moves forward -/
+theorem res_monotone (s s' : State) (st : Step) (iv : InvVer s) (hs : step s st = some s') :
+    ∀ r, s.res = some r → ∃ r', s'.res = some r' ∧ r ≤ r' := by
+  intro r hres
+  cases st <;> simp only [step, cstep] at hs
+  case setRes v =>
+    split at hs <;> try (simp at hs; done)
+    rename_i w hcomp
+    split at hs <;> try (simp at hs; done)
+    rename_i hvw; subst hvw
+    simp only [Option.some.injEq] at hs; subst hs
+    exact ⟨v, rfl, iv.resComp v (by rw [hcomp]; rfl) r hres⟩
+  all_goals
+    ((repeat' (split at hs)) <;>
+      (first
+        | (simp at hs; done)
+        | (simp only [Option.some.injEq] at hs; subst hs; exact ⟨r, hres, Nat.le_refl _⟩)))
+
+/-- `wakeup_or_fresh`: every registered client has a wake-up pending, or is about to read the result, or holds /
+    last sent the current result, or the broadcast of the current result has not reached it yet -/
+theorem wakeup_or_fresh (steps : List Step) (s : State) (hr : run init steps = some s) :
+    ∀ (i : Nat) (c : Client), s.clients[i]? = some c → c.pc.inMap = true → fresh s.res s.comp i c :=
+  (invs_of_run steps s hr).2.2.fresh
+
+/-- **C44 at rest.**  In a reachable state where none of the program's own steps is enabled, the published result is
+    the one compiled from the latest content and every registered client's last message is that result. -/
+theorem C44_quiescent_delivered (steps : List Step) (s : State) (hr : run init steps = some s)
+    (hq : quiescent s = true) :
+    s.res = some s.file
+      ∧ ∀ (i : Nat) (c : Client), s.clients[i]? = some c → c.pc.inMap = true → c.sent.getLast? = some s.file := by
+  obtain ⟨iv, hcov, hf⟩ := invs_of_run steps s hr
+  obtain ⟨hd, hrp, hcomp, hch⟩ := quiescent_global s hf hq
+  have hres : s.res = some s.file := by
+    unfold covered at hcov
+    simp only [hd, hrp, hcomp, hch, Comp.ver, Nat.lt_irrefl, Bool.false_eq_true, reduceCtorEq, false_or] at hcov
+    exact hcov
+  refine ⟨hres, ?_⟩
+  intro i c hc hm
+  obtain ⟨hp, hch', _, _⟩ := quiescent_client s hcomp hq i c hc hm
+  have := hf.fresh i c hc hm
+  rcases this with h | h | h | h | h | h | h
+  · rw [hch'] at h; simp at h
+  · rw [hp] at h; simp at h
+  · rw [hp] at h; simp at h
+  · rw [hp] at h; simp at h
+  · rw [hp] at h; simp [CPc.held] at h
+  · rw [← hres]; exact h.2
+  · rw [hcomp] at h; simp [bcastPending] at h
+
+/-- runs made of the program's own steps only -/
+def runInternal : State → List Step → Option State
+  | s, [] => some s
+  | s, st :: r => if external s st then none else
+    match step s st with
+    | some s' => runInternal s' r
+    | none => none
+
+/-- the liveness half: the program cannot keep itself busy — at most `mu s` internal steps in a row -/
+theorem internal_terminates (s s' : State) (steps : List Step) (hr : runInternal s steps = some s') :
+    steps.length + mu s' ≤ mu s := by
+  induction steps generalizing s with
+  | nil => simp only [runInternal, Option.some.injEq] at hr; subst hr; simp
+  | cons st r ih =>
+    simp only [runInternal] at hr
+    split at hr
+    · simp at hr
+    · rename_i he
+      split at hr
+      · rename_i s1 h1
+        have := ih s1 hr
+        have := mu_decreases s s1 st h1 (by simpa using he)
+        simp only [List.length_cons]; omega
+      · simp at hr
+
+/-! non-vacuity: a concrete run that edits the file, compiles and delivers to one client ends quiescent -/
+example : ((run init [.request, .admitC, .register 0, .sendReq, .recv, .compileStart, .fileRead, .compileEnd 0, .setRes 0,
+    .bcastLock, .wake 0, .bcastDone, .readRes 0, .readLog 0 (some 0), .write 0 0 true, .recvWake 0, .woken 0,
+    .readRes 0, .readLog 0 (some 0), .write 0 0 true]).map quiescent) = some true := by decide
+
 end D2V.Watch
